@@ -19,7 +19,7 @@ RULE = ("(a) exhaustive: every condition tree with <= N connectives (N=2 quick, 
         "3x4 world; (b) random queries over 1-4 variables of two related classes (Q.p -> P): self-joins, chained attributes, object "
         "equality joins, literals, predicates over two variables, conditions mentioning only a subset of the variables "
         "(free Cartesian completion), no condition at all, every selection subset and order, selected attribute "
-        "expressions; depth<=4; caching on (default) and off; set_of(...) and an([..], ...) spellings; (c) joins written as positional / keyword arguments of a predicate-form term whose class inherits a keyword-only field (Lk(From(links), x, y)); (d) feature-interaction queries (eqlmon/ix.py): a parent, its flattened elements and a further variable, with nested an()/the() sub-queries, concatenate, for_all, predicates and membership atoms on top, evaluated twice; histories as in C01 (repeated evaluation, abandoned-first, an earlier complete evaluation under the other caching switch). Non-trivial: the "
+        "expressions; depth<=4; caching on (default) and off; set_of(...) and an([..], ...) spellings; (c) joins written as positional / keyword arguments of a predicate-form term whose class inherits a keyword-only field (Lk(From(links), x, y)); (d) feature-interaction queries (eqlmon/ix.py): a parent, its flattened elements and a further variable, with nested an()/the() sub-queries, concatenate, for_all, predicates and membership atoms on top, evaluated twice, plus every ordered pair of interaction-atom kinds (pairwise coverage); histories as in C01 (repeated evaluation, abandoned-first, an earlier complete evaluation under the other caching switch). Non-trivial: the "
         "oracle result is neither empty nor the whole product; distinct by structural hash of (query, data, config).")
 LEVEL_TEXT = ("Reference-model monitoring at the API boundary: rows returned by the real evaluation are compared, by object "
               "identity, with the brute-force filter of the Cartesian product (set always; multiset when all variables "
@@ -127,7 +127,9 @@ def exhaustive_info(tier):
     return {"exhaustive": True,
             "bound": f"all {C.count_trees(len(LEAVES2), n)} condition trees with <= {n} connectives over 6 two-variable leaves (value, "
                      f"object, inequality and membership joins, one-variable conditions) on a fixed 3x4 world, each with one of 4 "
-                     f"selections in rotation and caching on/off in rotation; the random part is sampled"}
+                     f"selections in rotation and caching on/off in rotation; every ordered pair of the 27 kinds of interaction atoms of "
+                     f"eqlmon/ix.py (729 pairs) instantiated {1 if tier == 'quick' else 6} time(s) with random parameters, worlds and "
+                     f"spellings (pairwise feature-interaction coverage, not exhaustive in the parameters); the random part is sampled"}
 
 
 def plan(tier, seed):
@@ -136,7 +138,8 @@ def plan(tier, seed):
     return [{"n": n, "sub": i} for i in range(nsh)] + \
         [{"kind": "exh2", "size": SIZES[tier], "stride": nsh, "offset": i} for i in range(nsh)] + \
         [{"kind": "posjoin", "n": 40 if tier == "quick" else 400, "sub": 300 + i} for i in range(nsh)] + \
-        [{"kind": "ix", "n": 150 if tier == "quick" else 1500, "sub": 600 + i} for i in range(nsh)]
+        [{"kind": "ix", "n": 150 if tier == "quick" else 1500, "sub": 600 + i} for i in range(nsh)] + \
+        [{"kind": "ixpairs", "reps": 1 if tier == "quick" else 6, "stride": nsh, "offset": i, "sub": 900 + i} for i in range(nsh)]
 
 
 def floors(tier):
@@ -145,17 +148,29 @@ def floors(tier):
             "re:Variable@Comparator\\.L\\.enter": 100, "cache.check.hit": 200, "dedup.call": 500,
             "cls:nvars=3": 100, "cls:nvars=4": 50, "cls:exhaustive_two_variable_tree": 2000,
             "cls:join_through_positional_term_arguments": 200, "cls:preceded_by_an_abandoned_evaluation": 2000, "cls:preceded_by_an_evaluation_under_the_other_caching_switch": 500,
-            "cls:feature_interaction_query": 1500, "cls:ix:d_is_the_e": 60, "cls:ix:e_le_sub_an": 60, "cls:ix:exists_an": 60,
+            "cls:feature_interaction_query": 1500, "ix_atom_pairs_instantiated": 2900, "cls:ix:d_is_the_e": 60, "cls:ix:e_le_sub_an": 60, "cls:ix:exists_an": 60,
             "cls:ix:d_in_conc_p": 100, "cls:ix:d_in_conc_esubs": 100, "cls:ix:d_in_conc_psubs": 60, "cls:ix:forall_subs": 60,
             "cls:ix:forall_items_an": 60, "cls:ix:forall_subs_vs_d": 60, "cls:ix:pred_le": 100}
 
 
 def check_ix_case(case, ctx):
     from .. import ix
+    if "pair" in case:
+        ctx.count("ix_atom_pairs_instantiated")
     return ix.check(case["ix"], ctx)
 
 
 def cases(spec, ctx):
+    if spec.get("kind") == "ixpairs":
+        # pairwise coverage of the interaction atoms: EVERY ordered pair of atom kinds, `reps` random instantiations each
+        from .. import ix
+        pairs = [(a, b) for a in ix.ATOM_KINDS for b in ix.ATOM_KINDS]
+        for j, (k1, k2) in enumerate(pairs):
+            if j % spec["stride"] != spec["offset"]:
+                continue
+            for r in range(spec["reps"]):
+                yield {"ix": ix.gen_pair_case(ctx.rng(spec["sub"], j, r), k1, k2), "pair": [k1, k2]}
+        return
     if spec.get("kind") == "ix":
         from .. import ix
         for i in range(spec["n"]):
